@@ -172,6 +172,17 @@ SWEEP = {
                 lambda r, k: (r[0]["columns"][1]["references"].get("column") == k or r[0]["columns"][1]["references"].get("columns") == [k]) and _cols(r) == ["a", "b", "c"]),
     "index_col": ("create table t (a int, {k} int);\ncreate index ix on t ({k});", lambda r, k: r[0]["index"][0]["columns"] == [k]),
     "index_col2": ("create table t (a int, {k} int);\ncreate index ix on t (a, {k});", lambda r, k: r[0]["index"][0]["columns"] == ["a", k]),
+    # the same positions behind a CHECK constraint (the lexer keeps a per-statement 'check' flag from there on)
+    "col_after_check": ("create table t (a int check (a > 0), {k} int, c int);", lambda r, k: _cols(r) == ["a", k, "c"]),
+    "col_after_named_check": ("create table t (a int constraint c1 check (a > 0), {k} int, c int);", lambda r, k: _cols(r) == ["a", k, "c"]),
+    "pk_list_after_check": ("create table t (a int check (a > 0), {k} int, primary key ({k}, a));",
+                            lambda r, k: r[0]["primary_key"] == [k, "a"] and _cols(r) == ["a", k]),
+    "uq_single_after_check": ("create table t (a int check (a > 0), {k} int, unique ({k}));",
+                              lambda r, k: r[0]["columns"][1]["unique"] is True and _cols(r) == ["a", k]),
+    "fk_list_after_tcheck": ("create table t (a int, {k} int, constraint c1 check (a > 0), foreign key ({k}) references o (x));",
+                             lambda r, k: r[0]["columns"][1]["references"]["table"] == "o" and _cols(r) == ["a", k]),
+    "ref_col_after_check": ("create table t (a int check (a > 0), b int references o ({k}), c int);",
+                            lambda r, k: (r[0]["columns"][1]["references"].get("column") == k or r[0]["columns"][1]["references"].get("columns") == [k]) and _cols(r) == ["a", "b", "c"]),
     "table_after_dot": ("create table s.{k} (a int, b int);", lambda r, k: r[0]["schema"] == "s" and r[0]["table_name"] == k),
     # positions observed to accept every keyword but IF
     "table": ("create table {k} (a int, b int);", lambda r, k: r[0]["table_name"] == k and _cols(r) == ["a", "b"]),
@@ -227,7 +238,7 @@ class C06(Prop):
             "PRIMARY KEY, named UNIQUE constraints, [named] FOREIGN KEY, inline REFERENCES, optional CREATE [UNIQUE] INDEX and one "
             "TYPE / DOMAIN / SCHEMA / DATABASE / TABLESPACE / SEQUENCE declaration; every name drawn from plain, mixed case, \"..\", "
             "\".. ..\", `..`, [..], keyword-shaped (87 keywords x 3 case forms) and delimited keyword names; both normalize_names "
-            "settings; (b) sweep keyword x case form x 31 naming positions x 4 quoting forms; (c) diff of the two settings over "
+            "settings; (b) sweep keyword x case form x 37 naming positions x 4 quoting forms; (c) diff of the two settings over "
             "universe scripts in a drawn mode; non-trivial = >= 1 delimited and >= 1 keyword-shaped identifier in >= 3 distinct "
             "naming positions (diff: >= 2 delimited identifiers); distinct = SHA-1 of the case")
     budgets = {"quick": 3000, "thorough": 150000}
